@@ -547,8 +547,8 @@ def _load(case):
             paddr.append(a)
             for hs, ha, hf in p.get('helpers', []):
                 d[hs + '!' + ha] = hf
-        model = xl.ModelCompiler().read_and_parse_dict(
-            d, default_sheet=sheets[0]['name'])
+        # (lib.compile_dict varies the ARRANGEMENT of the dictionary)
+        model = lib.compile_dict(d, default_sheet=sheets[0]['name'])
     return model, paddr
 
 
